@@ -22,7 +22,8 @@ RULE = (
     "renormalised to one (1e-9), R the expected reward, and (for a third of the cases) the exact V* of the returned "
     "matrices (numpy Howard PI) must agree within epsilon with a max_diff ValueIteration run on the functional "
     "problem. Non-trivial = some (a,s) row where >= 2 events with positive probability share a successor; "
-    "error-path cases are counted in their own class; distinct = case digest. A sixth of the cases instead take a small "
+    "error-path cases are counted in their own class; distinct = case digest. Two thirds of the tabular cases first call the builder on "
+    "the same problem object with other tolerances (looser, stricter, both, or the same): the judged call must be unaffected by that history. A sixth of the cases instead take a small "
     "parameterisation of a shipped problem (S*A*E <= 4000) and compare the builder's matrices with matrices accumulated from "
     "the independent scalar reference models (vf.ref_problems)."
 )
@@ -58,8 +59,11 @@ def strategy(tier, shard):
                           sign=draw(st.sampled_from([-1, 1])))
         if defect is not None and draw(st.integers(0, 5)) == 0:
             tol = 0.0  # tolerance 0: any real deviation must be reported (the defect is then a fixed 1/8 of the mass)
+        # earlier calls of the builder on the SAME problem object with other tolerances (looser and/or stricter): the judged
+        # call must not depend on that history ("all tolerances" holds per call)
+        history = draw(st.sampled_from(["none", "none", "loose-first", "strict-first", "loose-then-strict", "same-first"]))
         return dict(spec=spec, tol=tol, defect=defect, solve=draw(st.integers(0, 2)) == 0,
-                    gamma=draw(st.sampled_from([0.5, 0.8, 0.9])))
+                    gamma=draw(st.sampled_from([0.5, 0.8, 0.9])), history=history)
 
     return cases()
 
@@ -137,6 +141,18 @@ def judge(case):
         problem = sut.make_problem(spec)
     except Exception as e:
         return verdict_fail(sut_bucket(e), f"construction raised {e!r}", classes=classes)
+    history = case.get("history") or "none"
+    if history != "none":
+        classes.append(f"history-{history}")
+        loose, strict = max(100.0 * tol, 4.0 * abs(delta), 1e-3), tol / 100.0
+        pre = {"loose-first": [loose], "strict-first": [strict], "loose-then-strict": [loose, strict], "same-first": [tol]}[history]
+        for t in pre:
+            try:
+                problem.build_transition_and_reward_matrices(normalization_tolerance=t)
+            except ValueError:
+                pass  # an earlier call may legitimately reject the problem at its own tolerance
+            except Exception as e:
+                return verdict_fail(sut_bucket(e), f"matrix builder (earlier call, tolerance {t}) raised {e!r}", classes=classes)
     try:
         P, R = problem.build_transition_and_reward_matrices(normalization_tolerance=tol)
         raised = None
